@@ -273,9 +273,9 @@ def _bcrypt_raw(pw: bytes, ident: str, rounds: int, salt: str):
     if b"\0" in pw:
         return None
     if ident == "$2$":
-        if not pw:
-            return None
-        pw = (pw * (72 // len(pw) + 1))[:72]
+        # $2$ cycles the key without its NUL terminator; for the empty key the original C code read the terminator itself, i.e. the key "\0" of $2a$
+        if pw:
+            pw = (pw * (72 // len(pw) + 1))[:72]
         use = "$2a$"
     elif ident in ("$2a$", "$2b$", "$2y$"):
         use = ident
